@@ -8,13 +8,16 @@ use vstd::arithmetic::div_mod::*;
 use vstd::arithmetic::mul::*;
 verus! {
 
-pub open spec fn str_inc(s: Seq<Duration>) -> bool { forall |i: int, k: int| #![trigger s[i], s[k]] 0 <= i < k < s.len() ==> s[i].val < s[k].val }
-pub open spec fn has(s: Seq<Duration>, d: int) -> bool { exists |i: int| 0 <= i < s.len() && (#[trigger] s[i]).val == d }
-/// C11: s lists, strictly increasing, exactly the interval lengths 1 <= d <= hz at which f increases
+/// C11: s is strictly increasing, every value in it is an interval length d >= 1 at which f increases (soundness: nothing that is
+/// not a step, in particular 0, is yielded), and every such d up to the horizon hz is in it (completeness: no step is skipped)
 pub open spec fn steps_exact(s: Seq<Duration>, f: spec_fn(int) -> int, hz: int) -> bool {
     &&& str_inc(s)
-    &&& forall |d: int| #[trigger] has(s, d) <==> (1 <= d <= hz && f(d - 1) < f(d))
+    &&& forall |d: int| #[trigger] has(s, d) ==> d >= 1 && f(d - 1) < f(d)
+    &&& forall |d: int| 1 <= d <= hz && f(d - 1) < f(d) ==> #[trigger] has(s, d)
 }
+/// all yielded values are at most ub
+pub open spec fn steps_le(s: Seq<Duration>, ub: int) -> bool { forall |i: int| 0 <= i < s.len() ==> (#[trigger] s[i]).val <= ub }
+pub open spec fn nafn<A: ArrivalBound + ?Sized>(t: &A) -> spec_fn(int) -> int { |x: int| t.na(x) }
 
 /// ceil(x/t) < ceil((x+1)/t) exactly when t divides x
 #[verifier::spinoff_prover]
@@ -40,15 +43,21 @@ pub trait ArrivalSteps: ArrivalBound {
     spec fn steps_ok(&self, n: int) -> bool;
     /// everything up to this interval length is decided by the first n candidates
     spec fn steps_hz(&self, n: int) -> int;
+    /// no value among the first n candidates' yield exceeds this (the eager reading evaluates closures on all of them)
+    spec fn steps_ub(&self, n: int) -> int;
     /// the stream leaves no horizon uncovered
     proof fn steps_hz_unbounded(&self, h: int) -> (n: int)
         requires self.wf()
         ensures n >= 0, self.steps_hz(n) >= h;
+    /// observing more candidates never decides less
+    proof fn steps_hz_mono(&self, n1: int, n2: int)
+        requires self.wf(), 0 <= n1 <= n2
+        ensures self.steps_hz(n1) <= self.steps_hz(n2);
 
 //@item src/arrival/mod.rs :: trait ArrivalBound / fn steps_iter
     fn steps_iter<'a>(&'a self/*+*/, vf_n: usize/*-*/) -> /*+*/(r: /*-*//*@R21: Box<dyn Iterator<Item = Duration> + 'a> @*/VfStream<Duration>/*@.*//*+*/)
         requires self.wf(), self.steps_ok(vf_n as int)
-        ensures steps_exact(r.0@, |x: int| self.na(x), self.steps_hz(vf_n as int))/*-*/ /*@R10: {
+        ensures steps_exact(r.0@, nafn(self), self.steps_hz(vf_n as int)), steps_le(r.0@, self.steps_ub(vf_n as int))/*-*/ /*@R10: {
         self.brute_force_steps_iter()
     } @*/;/*@.*/
 //@end
@@ -58,8 +67,14 @@ pub trait ArrivalSteps: ArrivalBound {
 impl<T: ArrivalSteps + ?Sized> ArrivalSteps for &T {
     open spec fn steps_ok(&self, n: int) -> bool { (**self).steps_ok(n) }
     open spec fn steps_hz(&self, n: int) -> int { (**self).steps_hz(n) }
+    open spec fn steps_ub(&self, n: int) -> int { (**self).steps_ub(n) }
     proof fn steps_hz_unbounded(&self, h: int) -> (n: int) { (**self).steps_hz_unbounded(h) }
-    fn steps_iter<'a>(&'a self, vf_n: usize) -> (r: VfStream<Duration>) { (**self).steps_iter(vf_n) }
+    proof fn steps_hz_mono(&self, n1: int, n2: int) { (**self).steps_hz_mono(n1, n2); }
+    fn steps_iter<'a>(&'a self, vf_n: usize) -> (r: VfStream<Duration>) {
+        let r = (**self).steps_iter(vf_n);
+        proof { assert(nafn(self) =~= nafn(*self)); }
+        r
+    }
 }
 
 // ------------------------------------------------------------------ Periodic
@@ -68,10 +83,15 @@ pub open spec fn per_step(t: int, j: u64) -> Duration { Duration { val: (t * j +
 impl ArrivalSteps for Periodic {
     open spec fn steps_ok(&self, n: int) -> bool { self.period.v() * n + 1 <= u64::MAX }
     open spec fn steps_hz(&self, n: int) -> int { if n >= 1 { self.period.v() * (n - 1) + 1 } else { 0 } }
+    open spec fn steps_ub(&self, n: int) -> int { self.steps_hz(n) }
     proof fn steps_hz_unbounded(&self, h: int) -> (n: int) {
         let n = if h >= 0 { h + 1 } else { 1 };
         assert(self.period.v() * (n - 1) >= n - 1) by { lemma_mul_inequality(1, self.period.v(), n - 1); }
         n
+    }
+    proof fn steps_hz_mono(&self, n1: int, n2: int) {
+        if n1 >= 1 { lemma_mul_inequality(n1 - 1, n2 - 1, self.period.v()); lemma_mul_is_commutative(self.period.v(), n1 - 1); lemma_mul_is_commutative(self.period.v(), n2 - 1); }
+        else if n2 >= 1 { lemma_mul_nonnegative(self.period.v(), n2 - 1); }
     }
 //@item src/arrival/periodic.rs :: impl ArrivalBound for Periodic / fn steps_iter
     fn steps_iter<'a>(&'a self/*+*/, vf_n: usize/*-*/) -> /*+*/(r: /*-*//*@R21: Box<dyn Iterator<Item = Duration> + 'a> @*/VfStream<Duration>/*@.*//*+*/)/*-*/ {
@@ -84,7 +104,7 @@ impl ArrivalSteps for Periodic {
         /*@R21: Box::new((0..) @*/let vf_s = VfStream::range_from(0, vf_n)/*@.*/.map(move |j/*+*/: u64/*-*/| /*+*/-> (r: Duration)
             requires self.period.v() * j + 1 <= u64::MAX ensures r == per_step(self.period.v(), j) { /*@probe*/ /*-*/self.period * j + Duration::from(1)/*+*/ }, Ghost(|j: u64| per_step(t, j))/*-*/)/*@R21: ) @*/;/*@.*/
 //@+
-        proof { lemma_periodic_steps(vf_s.0@, t, vf_n as int); }
+        proof { lemma_periodic_steps(vf_s.0@, t, vf_n as int); assert(nafn(self) =~= (|x: int| ceil_div(x, t))); }
         vf_s
 //@-
     }
@@ -94,7 +114,7 @@ impl ArrivalSteps for Periodic {
 #[verifier::spinoff_prover]
 pub proof fn lemma_periodic_steps(s: Seq<Duration>, t: int, n: int)
     requires t >= 1, n >= 0, s.len() == n, forall |i: int| 0 <= i < n ==> (#[trigger] s[i]).val == t * i + 1
-    ensures steps_exact(s, |x: int| ceil_div(x, t), if n >= 1 { t * (n - 1) + 1 } else { 0 })
+    ensures steps_exact(s, |x: int| ceil_div(x, t), if n >= 1 { t * (n - 1) + 1 } else { 0 }), steps_le(s, if n >= 1 { t * (n - 1) + 1 } else { 0 })
 {
     let hz = if n >= 1 { t * (n - 1) + 1 } else { 0 };
     let f = |x: int| ceil_div(x, t);
@@ -118,6 +138,7 @@ pub proof fn lemma_periodic_steps(s: Seq<Duration>, t: int, n: int)
             assert(s[q].val == d);
         }
     }
+    assert forall |i: int| 0 <= i < s.len() implies (#[trigger] s[i]).val <= hz by { assert(has(s, s[i].v())); }
 }
 
 // ------------------------------------------------------------------ Sporadic
@@ -130,10 +151,14 @@ impl ArrivalSteps for Sporadic {
         let h = self.min_inter_arrival.v() * n + 1 - self.jitter.v();
         if h >= 1 { h } else { 1 }
     }
+    open spec fn steps_ub(&self, n: int) -> int { self.steps_hz(n) }
     proof fn steps_hz_unbounded(&self, h: int) -> (n: int) {
         let n = if h + self.jitter.v() >= 0 { h + self.jitter.v() } else { 0 };
         assert(self.min_inter_arrival.v() * n >= n) by { lemma_mul_inequality(1, self.min_inter_arrival.v(), n); }
         n
+    }
+    proof fn steps_hz_mono(&self, n1: int, n2: int) {
+        lemma_mul_inequality(n1, n2, self.min_inter_arrival.v()); lemma_mul_is_commutative(self.min_inter_arrival.v(), n1); lemma_mul_is_commutative(self.min_inter_arrival.v(), n2);
     }
 //@item src/arrival/sporadic.rs :: impl ArrivalBound for Sporadic / fn steps_iter
     fn steps_iter<'a>(&'a self/*+*/, vf_n: usize/*-*/) -> /*+*/(r: /*-*//*@R21: Box<dyn Iterator<Item = Duration> + 'a> @*/VfStream<Duration>/*@.*//*+*/)/*-*/ {
@@ -157,7 +182,7 @@ impl ArrivalSteps for Sporadic {
                         requires self.min_inter_arrival.v() * j + 1 <= u64::MAX, self.min_inter_arrival.v() * j > self.jitter.v() ensures r == spo_step(self.min_inter_arrival.v(), self.jitter.v(), j) { /*@probe*/ /*-*/self.min_inter_arrival * j + Duration::epsilon() - self.jitter/*+*/ }, Ghost(gf)/*-*/),
             )/*@R21: , ) @*/;/*@.*/
 //@+
-        proof { lemma_sporadic_steps(vf_s.0@, c, gp, gf, t, jit, vf_n as int); }
+        proof { lemma_sporadic_steps(vf_s.0@, c, gp, gf, t, jit, vf_n as int); assert(nafn(self) =~= (|x: int| na_sporadic(t, jit, x))); }
         vf_s
 //@-
     }
@@ -170,7 +195,7 @@ pub proof fn lemma_sporadic_steps(s: Seq<Duration>, c: Seq<u64>, gp: spec_fn(u64
         c.len() == n, forall |i: int| 0 <= i < n ==> #[trigger] c[i] == 1 + i,
         forall |j: u64| #[trigger] gp(j) == spo_keep(t, jit, j), forall |j: u64| #[trigger] gf(j) == spo_step(t, jit, j),
         s == seq![Duration { val: 1 }] + filt(c, gp).map_values(gf)
-    ensures steps_exact(s, |x: int| na_sporadic(t, jit, x), if t * n + 1 - jit >= 1 { t * n + 1 - jit } else { 1 })
+    ensures steps_exact(s, |x: int| na_sporadic(t, jit, x), if t * n + 1 - jit >= 1 { t * n + 1 - jit } else { 1 }), steps_le(s, if t * n + 1 - jit >= 1 { t * n + 1 - jit } else { 1 })
 {
     let hz = if t * n + 1 - jit >= 1 { t * n + 1 - jit } else { 1 };
     let f = |x: int| na_sporadic(t, jit, x);
@@ -231,6 +256,7 @@ pub proof fn lemma_sporadic_steps(s: Seq<Duration>, c: Seq<u64>, gp: spec_fn(u64
             }
         }
     }
+    assert forall |i: int| 0 <= i < s.len() implies (#[trigger] s[i]).val <= hz by { assert(has(s, s[i].v())); }
 }
 
 /// filtering a strictly increasing sequence leaves it strictly increasing
@@ -294,9 +320,14 @@ impl<T: ArrivalSteps> ArrivalSteps for Propagated<T> {
         let h = self.input_event_model.steps_hz(n) - self.response_time_jitter.v();
         if h >= 1 { h } else { 1 }
     }
+    open spec fn steps_ub(&self, n: int) -> int {
+        let u = self.input_event_model.steps_ub(n) - self.response_time_jitter.v();
+        if u >= 1 { u } else { 1 }
+    }
     proof fn steps_hz_unbounded(&self, h: int) -> (n: int) {
         self.input_event_model.steps_hz_unbounded(h + self.response_time_jitter.v())
     }
+    proof fn steps_hz_mono(&self, n1: int, n2: int) { self.input_event_model.steps_hz_mono(n1, n2); }
 //@item src/arrival/propagated.rs :: impl<T: ArrivalBound + Clone + 'static> ArrivalBound for Propagated<T> / fn steps_iter
     fn steps_iter<'a>(&'a self/*+*/, vf_n: usize/*-*/) -> /*+*/(r: /*-*//*@R21: Box<dyn Iterator<Item = Duration> + 'a> @*/VfStream<Duration>/*@.*//*+*/)/*-*/ {
 //@+
@@ -324,7 +355,7 @@ impl<T: ArrivalSteps> ArrivalSteps for Propagated<T> {
 //@+
         proof {
             self.input_event_model.na_props();
-            lemma_propagated_steps(vf_s.0@, s_in, |x: int| self.input_event_model.na(x), |x: int| self.na(x), g1, gp, gf, jit, self.input_event_model.steps_hz(vf_n as int));
+            lemma_propagated_steps(vf_s.0@, s_in, nafn(&self.input_event_model), nafn(self), g1, gp, gf, jit, self.input_event_model.steps_hz(vf_n as int), self.input_event_model.steps_ub(vf_n as int));
         }
         vf_s
 //@-
@@ -336,15 +367,15 @@ pub open spec fn prop_na(f: spec_fn(int) -> int, jit: int, d: int) -> int { if d
 
 #[verifier::spinoff_prover]
 pub proof fn lemma_propagated_steps(s: Seq<Duration>, s_in: Seq<Duration>, f: spec_fn(int) -> int, g: spec_fn(int) -> int,
-        g1: spec_fn(Duration) -> bool, gp: spec_fn(Duration) -> bool, gf: spec_fn(Duration) -> Duration, jit: int, hz_in: int)
-    requires jit >= 0, steps_exact(s_in, f, hz_in), f(0) == 0,
+        g1: spec_fn(Duration) -> bool, gp: spec_fn(Duration) -> bool, gf: spec_fn(Duration) -> Duration, jit: int, hz_in: int, ub_in: int)
+    requires jit >= 0, steps_exact(s_in, f, hz_in), steps_le(s_in, ub_in), f(0) == 0,
         forall |a: int, b: int| #![trigger f(a), f(b)] 0 <= a <= b ==> 0 <= f(a) <= f(b),
         forall |d: int| #[trigger] g(d) == prop_na(f, jit, d),
         g1(Duration { val: 1 }) == (g(1) > 0),
         forall |x: Duration| #[trigger] gp(x) == prop_keep(jit, x), forall |x: Duration| #[trigger] gf(x) == prop_shift(jit, x),
         s == filt(seq![Duration { val: 1 }], g1) + filt(s_in, gp).map_values(gf)
     ensures
-        steps_exact(s, g, if hz_in - jit >= 1 { hz_in - jit } else { 1 })
+        steps_exact(s, g, if hz_in - jit >= 1 { hz_in - jit } else { 1 }), steps_le(s, if ub_in - jit >= 1 { ub_in - jit } else { 1 })
 {
     let hz = if hz_in - jit >= 1 { hz_in - jit } else { 1 };
     let one = seq![Duration { val: 1 }];
@@ -366,37 +397,48 @@ pub proof fn lemma_propagated_steps(s: Seq<Duration>, s_in: Seq<Duration>, f: sp
             else { assert(s[i] == gf(fc[i - h.len()])); assert(s[k] == gf(fc[k - h.len()])); assert(fc[i - h.len()].val < fc[k - h.len()].val); }
         }
     }
-    assert forall |d: int| #[trigger] has(s, d) <==> (1 <= d <= hz && g(d - 1) < g(d)) by {
+    // soundness: every yielded value is a step of g
+    assert forall |d: int| #[trigger] has(s, d) implies d >= 1 && g(d - 1) < g(d) by {
+        assert(g(d) == prop_na(f, jit, d)); assert(g(d - 1) == prop_na(f, jit, d - 1));
+        let i = choose |i: int| 0 <= i < s.len() && (#[trigger] s[i]).val == d;
+        if i < h.len() {
+            assert(s[i] == h[0]); assert(d == 1);
+            assert(g1(one[0]));
+            assert(prop_na(f, jit, 0) == 0);
+        } else {
+            let x = fc[i - h.len()];
+            assert(s[i] == gf(x));
+            assert(x.val == d + jit && d >= 2);
+            assert(s_in.contains(x));
+            let k = choose |k: int| 0 <= k < s_in.len() && s_in[k] == x;
+            assert(has(s_in, d + jit));
+        }
+    }
+    // completeness up to the horizon
+    assert forall |d: int| 1 <= d <= hz && g(d - 1) < g(d) implies #[trigger] has(s, d) by {
         assert(g(d) == prop_na(f, jit, d)); assert(g(d - 1) == prop_na(f, jit, d - 1));
         if d == 1 {
             assert(prop_na(f, jit, 0) == 0);
-            if has(s, 1) {
-                let i = choose |i: int| 0 <= i < s.len() && (#[trigger] s[i]).val == 1;
-                if i >= h.len() { assert(s[i] == gf(fc[i - h.len()])); assert(false); }
-                assert(g1(one[0]));
-            }
-            if prop_na(f, jit, 1) > 0 { assert(g1(one[0])); assert(s[0].val == 1); }
+            assert(g1(one[0])); assert(s[0].val == 1);
         } else {
-            if has(s, d) {
-                let i = choose |i: int| 0 <= i < s.len() && (#[trigger] s[i]).val == d;
-                if i < h.len() { assert(s[i] == h[0]); assert(false); }
-                let x = fc[i - h.len()];
-                assert(s[i] == gf(x));
-                assert(x.val == d + jit);
-                assert(s_in.contains(x));
-                let k = choose |k: int| 0 <= k < s_in.len() && s_in[k] == x;
-                assert(has(s_in, d + jit));
-            }
-            if 2 <= d <= hz && prop_na(f, jit, d - 1) < prop_na(f, jit, d) {
-                assert(f(d + jit - 1) < f(d + jit));
-                assert(has(s_in, d + jit));
-                let k = choose |k: int| 0 <= k < s_in.len() && (#[trigger] s_in[k]).val == d + jit;
-                assert(gp(s_in[k]));
-                assert(fc.contains(s_in[k]));
-                let q = choose |q: int| 0 <= q < fc.len() && fc[q] == s_in[k];
-                assert(s[h.len() + q] == gf(fc[q]));
-                assert(s[h.len() + q].val == d);
-            }
+            assert(f(d + jit - 1) < f(d + jit));
+            assert(has(s_in, d + jit));
+            let k = choose |k: int| 0 <= k < s_in.len() && (#[trigger] s_in[k]).val == d + jit;
+            assert(gp(s_in[k]));
+            assert(fc.contains(s_in[k]));
+            let q = choose |q: int| 0 <= q < fc.len() && fc[q] == s_in[k];
+            assert(s[h.len() + q] == gf(fc[q]));
+            assert(s[h.len() + q].val == d);
+        }
+    }
+    assert forall |i: int| 0 <= i < s.len() implies (#[trigger] s[i]).val <= (if ub_in - jit >= 1 { ub_in - jit } else { 1 }) by {
+        if i < h.len() { assert(s[i] == h[0]); }
+        else {
+            let x = fc[i - h.len()];
+            assert(s[i] == gf(x));
+            assert(s_in.contains(x));
+            let k = choose |k: int| 0 <= k < s_in.len() && s_in[k] == x;
+            assert(s_in[k].val <= ub_in);
         }
     }
 }
